@@ -3,15 +3,16 @@ module filippo.io/sunlight/verifharness
 go 1.25.0
 
 require (
+	crawshaw.io/sqlite v0.3.3-0.20220618202545-d1964889ea3c
 	filippo.io/mldsa v0.0.0-20260711112038-ff3f469cee29
 	filippo.io/sunlight v0.0.0
 	filippo.io/torchwood v0.9.1-0.20260706112420-c22a68158d96
 	github.com/prometheus/client_golang v1.23.2
 	golang.org/x/mod v0.37.0
+	golang.org/x/sys v0.46.0
 )
 
 require (
-	crawshaw.io/sqlite v0.3.3-0.20220618202545-d1964889ea3c // indirect
 	filippo.io/edwards25519 v1.2.0 // indirect
 	github.com/aws/aws-sdk-go-v2 v1.42.0 // indirect
 	github.com/aws/aws-sdk-go-v2/aws/protocol/eventstream v1.7.13 // indirect
@@ -51,7 +52,6 @@ require (
 	golang.org/x/crypto v0.53.0 // indirect
 	golang.org/x/net v0.56.0 // indirect
 	golang.org/x/sync v0.21.0 // indirect
-	golang.org/x/sys v0.46.0 // indirect
 	golang.org/x/text v0.38.0 // indirect
 	golang.org/x/time v0.15.0 // indirect
 	google.golang.org/genproto/googleapis/rpc v0.0.0-20260622175928-b703f567277d // indirect
